@@ -6,6 +6,7 @@ generated definition and breaks the proof.
 -/
 import JubakoModel.Model.Pack
 import JubakoModel.Generated.FuncsCheck
+import JubakoModel.Model.Crc
 import JubakoModel.Lemmas.Codec
 
 namespace Jubako
@@ -43,5 +44,17 @@ theorem gen_packSizes (cip : Nat) :
     Generated.containerPackSize cip 64 = cip + 5 + 64 := by
   simp [Generated.contentPackSize, Generated.directoryPackSize, Generated.manifestPackSize,
     Generated.containerPackSize, Generated.checkKindBlockSize, Generated.blockCheckSize]
+
+/-- **The CRC check of a block is the source's**: `assert_slice_crc` (`bases/block.rs`) translated on every run —
+    the CRC of everything but the last four bytes against those four bytes read big-endian, "corrupted" when
+    they differ — is `checkBlock` of the model, for every byte string (the CRC-32C itself is the model's
+    `crc32c`, whose parameters are read from the source on every run). -/
+theorem gen_assertSliceCrc (full : Bytes) :
+    Generated.assertSliceCrc (fun d => (crc32c d).toNat) be32Nat full =
+      if checkBlock full then .ok () else .err .corrupted := by
+  unfold Generated.assertSliceCrc checkBlock
+  by_cases h : (crc32c (List.take (full.length - 4) full)).toNat = be32Nat (List.drop (full.length - 4) full)
+  · simp [h]
+  · simp [h]
 
 end Jubako
